@@ -8,6 +8,7 @@ import (
 	"github.com/chain4energy/c4e-chain/x/cfedistributor/types"
 	"github.com/cosmos/cosmos-sdk/codec"
 	sdk "github.com/cosmos/cosmos-sdk/types"
+	authtypes "github.com/cosmos/cosmos-sdk/x/auth/types"
 	paramtypes "github.com/cosmos/cosmos-sdk/x/params/types"
 )
 
@@ -49,7 +50,28 @@ func (k Keeper) Logger(ctx sdk.Context) log.Logger {
 }
 
 func (k Keeper) SendCoinsFromModuleToModule(ctx sdk.Context, coins sdk.Coins, moduleFrom string, moduleTo string) error {
+	if err := k.checkModuleAccount(ctx, moduleFrom); err != nil {
+		return err
+	}
+	if err := k.checkModuleAccount(ctx, moduleTo); err != nil {
+		return err
+	}
 	return k.bankKeeper.SendCoinsFromModuleToModule(ctx, moduleFrom, moduleTo, coins)
+}
+
+// checkModuleAccount reports an ordinary account sitting at the address of a module account. Module accounts are created
+// lazily, and not every SDK message that creates an account looks at the bank's blocked addresses (periodic vesting
+// accounts, fee allowances): until a collector is used for the first time anybody can put an account at its address,
+// and auth's GetModuleAccount panics on it. The distributor treats that as a transfer that fails.
+func (k Keeper) checkModuleAccount(ctx sdk.Context, moduleName string) error {
+	acc := k.accountKeeper.GetAccount(ctx, authtypes.NewModuleAddress(moduleName))
+	if acc == nil {
+		return nil
+	}
+	if _, ok := acc.(authtypes.ModuleAccountI); !ok {
+		return fmt.Errorf("account at the address of module %s is not a module account", moduleName)
+	}
+	return nil
 }
 
 func (k Keeper) SendCoinsFromModuleAccount(ctx sdk.Context, coins sdk.Coins, moduleFrom string, account sdk.AccAddress) error {
@@ -70,6 +92,10 @@ func (k Keeper) GetAccountCoins(ctx sdk.Context, account sdk.AccAddress) sdk.Coi
 }
 
 func (k Keeper) GetAccountAddressModuleAccount(ctx sdk.Context, accountName string) sdk.AccAddress {
+	if err := k.checkModuleAccount(ctx, accountName); err != nil {
+		k.Logger(ctx).Error("get account address module account", "error", err.Error())
+		return authtypes.NewModuleAddress(accountName)
+	}
 	return k.accountKeeper.GetModuleAccount(ctx, accountName).GetAddress()
 }
 
